@@ -7,6 +7,7 @@ import (
 	"go/constant"
 	"go/types"
 	"os"
+	"regexp"
 	"sort"
 	"strings"
 
@@ -21,18 +22,29 @@ type ghostSig struct {
 }
 
 type Verifier struct {
-	repo      string
-	prog      *ssa.Program
-	pkgs      []*packages.Package
-	allPkgs   map[string]*packages.Package
-	ssaPkgs   map[string]*ssa.Package
-	specs     *Specs
-	g         *Gen
-	ghostFuns map[string]ghostSig
-	pureDone  map[string]bool
-	pureDefs  []string
-	callees   map[*Root]map[string]bool
-	loadErrs  []string
+	repo          string
+	prog          *ssa.Program
+	pkgs          []*packages.Package
+	allPkgs       map[string]*packages.Package
+	ssaPkgs       map[string]*ssa.Package
+	specs         *Specs
+	g             *Gen
+	ghostFuns     map[string]ghostSig
+	pureDone      map[string]bool
+	pureDefs      []string
+	callees       map[*Root]map[string]bool
+	loadErrs      []string
+	knownPatterns []string // obligation patterns of listed known findings: such clauses are never assumed at call sites
+}
+
+func (v *Verifier) isKnownFinding(name string) bool {
+	for _, p := range v.knownPatterns {
+		pat := "^" + strings.ReplaceAll(regexp.QuoteMeta(p), `\*`, ".*") + "$"
+		if ok, _ := regexp.MatchString(pat, name); ok {
+			return true
+		}
+	}
+	return false
 }
 
 func NewVerifier(repo string, patterns []string) (*Verifier, error) {
